@@ -389,9 +389,12 @@ class _PackedBoolArray:
             raise IndexError("Illegal index type (%s) for __setitem__ in _PackedBoolArray." %
                              (key.__class__))
 
-    def __array__(self):
+    def __array__(self, dtype=None, copy=None):
         array = np.unpackbits(self._data, bitorder="little").astype(np.bool_)
-        return array[self._start_index: self._stop_index]
+        array = array[self._start_index: self._stop_index]
+        if dtype is not None:
+            array = array.astype(dtype, copy=False)
+        return array
 
     def __iand__(self, other):
         if isinstance(other, (bool, np.bool_)):
